@@ -12,7 +12,18 @@ import (
 // answering pongs). A call several timeouts long, an idle gap of several timeouts, a subscription: nothing may drop.
 func scenKeepHealthy(ping, timeout, srvPing time.Duration) *connRun {
 	e := newConnEnv(connOpts{ping: ping, timeout: timeout, srvPing: srvPing})
-	params := map[string]interface{}{"ping_ms": ping.Milliseconds(), "timeout_ms": timeout.Milliseconds(), "srv_ping_ms": srvPing.Milliseconds(), "kind": "healthy"}
+	params := map[string]interface{}{"ping_ms": ping.Milliseconds(), "timeout_ms": timeout.Milliseconds(), "srv_ping_ms": srvPing.Milliseconds(), "kind": "healthy",
+		"after_redial": keepAfterRedial}
+	expectAccepts := 1
+	if keepAfterRedial {
+		// the link under test is one the client obtained by redialling: keepalive must work there as on the first one
+		w := e.call("echo", context.Background())
+		e.waitEv(2*time.Second, func(ev tev) bool { return ev.Point == "call.return" && fmt.Sprint(ev.Args[0]) == fmt.Sprint(w) })
+		e.proxy.current().kill(faultFIN)
+		e.waitEv(3*time.Second, evIs("redial.swap", nil))
+		expectAccepts = 2
+		e.hold(2)
+	}
 	e.hold(1)
 	long := e.call("waitctx", context.Background()) // handler runs for 3 timeouts
 	e.waitEv(2*time.Second, evIs("h.start", long))
@@ -24,8 +35,8 @@ func scenKeepHealthy(ping, timeout, srvPing time.Duration) *connRun {
 	e.waitEv(2*time.Second, func(ev tev) bool { return ev.Point == "call.return" && fmt.Sprint(ev.Args[0]) == fmt.Sprint(after) })
 	r := e.finish("keepalive", params)
 	if r.Oracle == "" {
-		if r.Accepts != 1 {
-			r.Oracle = fmt.Sprintf("a healthy link (ping %v < timeout/2 = %v, server ping %v) was dropped and re-dialled %d time(s)", ping, timeout/2, srvPing, r.Accepts-1)
+		if r.Accepts != expectAccepts {
+			r.Oracle = fmt.Sprintf("a healthy link (ping %v < timeout/2 = %v, server ping %v, after a redial: %v) was dropped and re-dialled %d time(s)", ping, timeout/2, srvPing, keepAfterRedial, r.Accepts-expectAccepts)
 		}
 		for _, c := range r.Calls {
 			if c.Outcome != "ok" {
@@ -35,6 +46,9 @@ func scenKeepHealthy(ping, timeout, srvPing time.Duration) *connRun {
 	}
 	return r
 }
+
+// set around a scenKeepHealthy call: first force one reconnect, then test the redialled link
+var keepAfterRedial bool
 
 // silent: the peer falls silent (blackhole, no close) at a given point; the client must notice within a bound given by
 // its timeout, fail the pending call with the connection error and start reconnecting.
@@ -124,9 +138,25 @@ func init() {
 					emit(scenKeepHealthy(x.p, x.t, sp))
 				}
 			}
+			keepAfterRedial = true
+			emit(scenKeepHealthy(20*time.Millisecond, 100*time.Millisecond, 0))
+			emit(scenKeepHealthy(30*time.Millisecond, 200*time.Millisecond, 5*time.Second))
+			keepAfterRedial = false
 			for _, when := range []string{"fresh", "settled", "during-call"} {
 				emit(scenKeepSilent(20*time.Millisecond, 100*time.Millisecond, when, false))
 				emit(scenKeepSilent(25*time.Millisecond, 120*time.Millisecond, when, true))
+			}
+			if tier == "thorough" {
+				more := []pt{{15 * time.Millisecond, 60 * time.Millisecond}, {50 * time.Millisecond, 250 * time.Millisecond}, {28 * time.Millisecond, 60 * time.Millisecond},
+					{10 * time.Millisecond, 300 * time.Millisecond}}
+				for _, x := range more {
+					for _, sp := range []time.Duration{0, x.p, x.t} {
+						emit(scenKeepHealthy(x.p, x.t, sp))
+					}
+					for _, when := range []string{"fresh", "settled", "during-call"} {
+						emit(scenKeepSilent(x.p, x.t, when, when != "settled"))
+					}
+				}
 			}
 		}
 	})
